@@ -22,6 +22,61 @@ def edge_module():
             "ext": gen_pkgs.EXT, "std": gen_pkgs.STD, "nonascii": False}
 
 
+# ---- replace-type slice: the signature a mock REALLY has is the one after replace-type; nillability
+# (nil guards of results and of typed Run arguments) must follow the replaced type.
+KINDS_SRC = """
+type ID int
+type Rec struct{ N int }
+type Flag bool
+type Label string
+type Failer interface{ Error() string }
+type Opaque interface{ hidden() }
+type ClientPtr *Client
+type Names []string
+type Hook func(int) error
+type Table map[string]int
+"""
+KIND_NILLABLE = {"ID": False, "Rec": False, "Flag": False, "Label": False, "Failer": True, "Opaque": True,
+                 "ClientPtr": True, "Names": True, "Hook": True, "Table": True}
+
+
+def repl_module(rng):
+    """Interfaces over named types of ext/http; every mock (configs entry) replaces some of them by
+    named types of ext3/http0 (and one package-level replacement), mostly changing nillability."""
+    ext = [e for e in gen_pkgs.EXT if e["name"] in ("http", "http0")]
+    src_pkg, dst_pkg, dst2_pkg = ext[0]["path"], ext[2]["path"], ext[1]["path"]
+    kinds = sorted(KIND_NILLABLE)
+    def nt(n):
+        return gen_pkgs.named(src_pkg, n)
+    ifaces = []
+    for name in ("ReplA", "ReplB", "ReplC"):
+        ms = []
+        for mn in rng.sample(["Do", "Get", "Put", "List", "Apply"], rng.randint(2, 4)):
+            ps = [{"n": "p%d" % j, "t": nt(rng.choice(kinds)) if rng.random() < 0.8 else gen_pkgs.basic(rng.choice(["int", "string", "error"]))}
+                  for j in range(rng.randint(0, 3))]
+            variadic = bool(ps) and rng.random() < 0.3
+            if variadic:
+                ps[-1] = {"n": ps[-1]["n"], "t": {"k": "slice", "e": gen_pkgs.basic(rng.choice(["int", "any", "error"]))}}
+            rs = [{"n": "", "t": nt(rng.choice(kinds)) if rng.random() < 0.8 else gen_pkgs.basic("error")} for _ in range(rng.choice([1, 1, 2, 2, 3]))]
+            ms.append({"n": mn, "sig": {"params": ps, "variadic": variadic, "results": rs}})
+        ifaces.append({"name": name, "tparams": [], "methods": ms, "embeds": [], "exported": True})
+    specs = []
+    for i in ifaces:
+        for k in range(rng.randint(2, 3)):
+            repl = []
+            for n in kinds:
+                if n == "Label" or rng.random() < 0.3:
+                    continue                                  # Label: package level; some types stay as declared
+                cands = [t for t in kinds if KIND_NILLABLE[t] != KIND_NILLABLE[n]] if rng.random() < 0.75 else kinds
+                repl.append([src_pkg, n, rng.choice([dst_pkg, dst_pkg, dst2_pkg]), rng.choice(cands)])
+            specs.append({"struct": "Mock%sR%d" % (i["name"], k), "iface_name": i["name"], "unroll": rng.choice([None, True, False]), "replace": repl})
+    extra = {}
+    for e in ext:
+        extra[e["path"][len(MOD) + 1:] + "/kinds.go"] = "package %s\n%s" % (e["name"], KINDS_SRC)
+    return {"mod": MOD, "src": {"path": MOD + "/src", "name": "src"}, "ifaces": ifaces, "ext": ext, "std": gen_pkgs.STD, "nonascii": False,
+            "extra_files": extra, "repl_specs": specs, "pkg_replace": [[src_pkg, "Label", dst_pkg, rng.choice(["Names", "Failer", "Table"])]]}
+
+
 def gen_module(rng, generic):
     # ext5/mock collides with the template's hard-wired `mock` import and []unsafe.Pointer results get an
     # invalid generated name: both are compile-level defects outside C03 (C01), kept out of this generator
@@ -64,6 +119,10 @@ def mock_specs(m, explicit_false=False, groups=True):
     tdata ('none' | 'other' for unset mocks), output file stem, instantiation.
     Regular mocks have a file of their own; group mocks share a file with 1-3 others whose
     settings differ (state leaking from one mock of a file to the next must be visible)."""
+    if m.get("repl_specs"):
+        byname = {i["name"]: i for i in m["ifaces"]}
+        return [{"struct": r["struct"], "iface": byname[r["iface_name"]], "unroll": r["unroll"], "tdata": "none", "file": r["struct"],
+                 "inst": "", "group": None, "replace": r["replace"]} for r in m["repl_specs"]]
     out, usable = [], []
     for i in m["ifaces"]:
         inst = ""
@@ -102,9 +161,24 @@ def mock_specs(m, explicit_false=False, groups=True):
     return out
 
 
-def write_config(root, specs):
+def replace_lines(repl, indent):
+    by = {}
+    for fp, fn, tp, tn in repl:
+        by.setdefault(fp, []).append((fn, tp, tn))
+    out = [indent + "replace-type:"]
+    for fp, l in by.items():
+        out.append(indent + "  %s:" % fp)
+        for fn, tp, tn in l:
+            out += [indent + "    %s:" % fn, indent + "      pkg-path: %s" % tp, indent + "      type-name: %s" % tn]
+    return out
+
+
+def write_config(root, specs, pkg_replace=None):
     lines = ["template: testify", "formatter: goimports", "force-file-write: true", 'dir: "{{.InterfaceDir}}"',
-             'pkgname: "{{.SrcPackageName}}"', 'filename: "mock_{{.StructName}}.go"', "packages:", "  %s/src:" % MOD, "    interfaces:"]
+             'pkgname: "{{.SrcPackageName}}"', 'filename: "mock_{{.StructName}}.go"', "packages:", "  %s/src:" % MOD]
+    if pkg_replace:
+        lines += ["    config:"] + replace_lines(pkg_replace, "      ")
+    lines.append("    interfaces:")
     by_iface = {}
     for s in specs:
         by_iface.setdefault(s["iface"]["name"], []).append(s)
@@ -117,6 +191,8 @@ def write_config(root, specs):
                 lines += ["            template-data:", "              unroll-variadic: %s" % ("true" if s["unroll"] else "false")]
             elif s["tdata"] == "other":
                 lines += ["            template-data:", '              mock-build-tags: ""']
+            if s.get("replace"):
+                lines += replace_lines(s["replace"], "            ")
     (root / ".mockery.yml").write_text("\n".join(lines) + "\n")
 
 
@@ -125,6 +201,8 @@ def build_module(ctx, idx, m, explicit_false):
     binary, the surviving mock specs and the dropped ones (with reasons)."""
     root = ctx.scratch / ("mod%d" % idx)
     gen_pkgs.write_module(m, root)
+    for rel, content in (m.get("extra_files") or {}).items():
+        (root / rel).write_text(content)
     shutil.copy(REPO / "go.sum", root / "go.sum")
     env = go_env({"GOFLAGS": "-mod=mod"})
     specs = mock_specs(m, explicit_false)
@@ -138,7 +216,7 @@ def build_module(ctx, idx, m, explicit_false):
 
     # --- mockery (a failing file aborts the run: drop its mocks and run again)
     for _ in range(len(specs) + 1):
-        write_config(root, specs)
+        write_config(root, specs, m.get("pkg_replace"))
         p = run([ctx.bins["mockery"]], cwd=root, env=env, timeout=300)
         if p.returncode == 0:
             break
@@ -817,8 +895,8 @@ def check(ctx, only=None):
         return
     thorough = ctx.thorough()
     n_mod = 40 if thorough else 10
-    per_mock = 80 if thorough else 22
-    mods = [("edge", edge_module(), False)]
+    per_mock = 80 if thorough else 16
+    mods = [("edge", edge_module(), False), ("repl", repl_module(random.Random(ctx.rng.getrandbits(64))), False)]
     for i in range(n_mod):
         r = random.Random(ctx.rng.getrandbits(64))
         mods.append(("gen%d" % i, gen_module(r, generic=(i % 3 == 2)), i % 2 == 1))
@@ -842,7 +920,7 @@ def check(ctx, only=None):
             if only is not None:
                 hs = [o2 for o in only if o["module_name"] == name for o2 in o["histories"] if o2["mock"] == spec["struct"]]
             else:
-                n_h = per_mock * (3 if (name == "edge" and spec["group"] is None) else 1)
+                n_h = per_mock * (2 if (name == "edge" and spec["group"] is None) else 2 if name == "repl" else 1)
                 hs = [gen_history(rng, spec, table, prefer_variadic=spec["group"] is not None) for _ in range(n_h)]
             for h in hs:
                 mod["items"].append((spec, table, h))
@@ -929,6 +1007,29 @@ def check(ctx, only=None):
             "unroll_true": sum(1 for _, s, _, _, _ in flat if s["unroll"] is True), "no_ctor": sum(1 for _, _, _, h, _ in flat if not h["ctor"]),
             "methods": {}, "position_types": {}, "generic_mocks": 0, "mocks_sharing_a_file": 0, "shared_file_settings": {}, "lower_case_structs": 0, "setup_styles": {}, "outcomes": {}, "dropped_not_owned": [{"mock": d["spec"]["struct"], "stage": d["stage"], "error": d["error"][:200]} for _, d, _ in dropped_other][:20],
             "dropped_owned": len(owned_fail)}
+    # replace-type slice: how the generated signatures differ from the declared ones
+    rt = {"mocks": 0, "positions": {}, "configured_but_not_applied": 0}
+    for mod in results:
+        if not mod["module"].get("repl_specs"):
+            continue
+        pkgmap = {(fp, fn): tn for fp, fn, tp, tn in mod["module"].get("pkg_replace", [])}
+        for spec in mod["specs"]:
+            rt["mocks"] += 1
+            want = dict(pkgmap)
+            want.update({(fp, fn): tn for fp, fn, tp, tn in spec.get("replace", [])})
+            ast = {mm["n"]: mm["sig"] for mm in spec["iface"]["methods"]}
+            for md in mod["desc"][spec["struct"]]:
+                sg = ast[md["name"]]
+                for a, d in list(zip(sg["params"], md["params"])) + list(zip(sg["results"], md["results"])):
+                    t = a["t"]
+                    if t["k"] != "named" or t["n"] not in KIND_NILLABLE:
+                        continue
+                    target = want.get((t["pkg"], t["n"]))
+                    if target and not d["str"].endswith("." + target):
+                        rt["configured_but_not_applied"] += 1
+                    k = "%s -> %s" % ("nillable" if KIND_NILLABLE[t["n"]] else "non-nillable", "nillable" if d["nilk"] else "non-nillable")
+                    if target:
+                        rt["positions"][k] = rt["positions"].get(k, 0) + 1
     seen_m = set()
     for mod, spec, table, h, ob in flat:
         if (mod["name"], spec["struct"]) not in seen_m:
@@ -962,7 +1063,7 @@ def check(ctx, only=None):
     ctx.write_evidence(gate, 2 * len(flat), distinct,
                        "seeded histories (4-15 steps: EXPECT registrations in 6 setup styles with Once/Times, calls, cleanups) against freshly generated mocks of generated and hand-picked interfaces, both unroll-variadic settings; every history is judged by the model-free oracle and compared with the model in Coq; non-trivial = at least one call returned values or ran a callback; distinct by (mock, full history)",
                        samples, extra={"input_histogram": hist, "oracle_stats": stats, "model_mismatches": len(bad), "oracle_failures": len(oracle_fail),
-                                       "coq_errors": errs[:3], "timing": timing},
+                                       "coq_errors": errs[:3], "timing": timing, "replace_type_slice": rt},
                        assumptions=["values are built from small tokens injectively w.r.t. reflect.DeepEqual (driver drv_testify); interface-typed positions hold nil or the driver's token type only",
                                     "user callbacks/providers are functions returning scripted constants",
                                     "testify matchers other than mock.Anything, Maybe/WaitUntil/After/Unset/NotBefore are not exercised"])
